@@ -80,6 +80,7 @@ def check(ctx):
     ctx.assumptions += ["a flipped octet that yields another valid document is judged only for 'no crash + usable' (the format has no checksum and the property asks for none)"]
     ctx.tlc_model("CachePersistMC", "CachePersistMC.cfg", timeout=600)
     ctx.tlc_must_fail("CachePersistMC", "CachePersistAsBuilt.cfg", expect="Usable", workers=4)
+    ctx.tlc_must_fail("CachePersistMC", "CachePersistNoTrunc.cfg", expect="DumpRoundTrip", workers=8)
     exps = flowjobs.exporters(ctx.seed)
     ids = [256, 257, 1000, 65535]
     for proto in ("ipfix", "v9"):
@@ -179,4 +180,27 @@ def check(ctx):
                                   key=proto + ":unusable:" + label.split(":")[0])
                     break
         ctx.traces_validated += len(jobs)
+        # DumpRoundTrip over an existing file (the model's counterexample for a Dump that does not truncate): a smaller
+        # cache is saved over the longer file - intact, damaged, and much longer garbage - and loaded back
+        small = ann[:2]
+        sprobes = probes[:2]
+        for label, content in (("longer-document", raw), ("damaged-longer-document", raw[:len(raw) // 2] + b"#" + raw[len(raw) // 2:]),
+                               ("long-garbage", b"x" * (len(raw) * 2)), ("absent", None)):
+            path = os.path.join(d, "over-%s.json" % label)
+            if content is not None:
+                with open(path, "wb") as fh:
+                    fh.write(content)
+            w1 = flowjobs.run_jobs(ctx, drv, codec.P[proto]["jobs"], [{"msgs": small, "dump_to": path}], env={"VERIF_ELEMENTS_DIR": el}, tag="c11o_" + proto)[0]
+            r1 = flowjobs.run_jobs(ctx, drv, codec.P[proto]["jobs"], [{"cache_file": path, "msgs": [p for p, _ in sprobes]}], env={"VERIF_ELEMENTS_DIR": el}, tag="c11p_" + proto)[0]
+            ctx.count([proto, "overwrite", label])
+            if "killed" in w1 or "killed" in r1 or w1.get("dump") != "ok":
+                ctx.violation("%s: saving over an existing file (%s) failed: %s" % (name, label, w1.get("dump") or "killed"), {"file": label})
+                continue
+            for (p, v), x in zip(sprobes, r1["res"]):
+                gotr = [[(f["i"], tuple(f["v"]["o"])) for f in rec] for rec in x["recs"]]
+                if x["st"] != "ok" or gotr != c04.expected_recs(v):
+                    ctx.violation("%s: a cache saved over an existing %s does not load back: exporter %s is answered '%s' (%d records) "
+                                  "after the restart" % (name, label, p["exp"], x["st"], len(gotr)), {"existing_file": label},
+                                  key=proto + ":overwrite")
+                    break
         ctx.sample({"proto": proto, "file_octets": len(raw), "loads": len(loads), "example_mutation": json.dumps(mutate_doc(doc, "nullshard", ctx.rng))[:300]})
